@@ -21,7 +21,7 @@ import json, os, random, re, subprocess, sys, threading, time, shutil, queue
 ROOT = os.path.dirname(os.path.dirname(os.path.abspath(__file__)))
 REPO = "/repo"
 
-LOGMAC = re.compile(r"\b(fmt::|log::|trace!|debug!|info!|warn!|error!|defmt|assert|panic!|unreachable!|todo!|write!|format!|println!)")
+LOGMAC = re.compile(r"(fmt::|log::|trace!|debug!|info!|warn!|error!|defmt|assert|panic!|unreachable!|todo!|write!|format!|println!)")
 
 
 def props():
@@ -152,12 +152,80 @@ def mutate_line(raw):
     return res
 
 
+ORIG = "b58eb77f"  # the pinned snapshot the anchors' line numbers refer to
+
+
+def fn_extents(text):
+    """[(name, first_line, last_line)] of fn items (brace matching from the `fn` line)."""
+    lines = text.split("\n")
+    out = []
+    for i, l in enumerate(lines):
+        m = re.match(r"\s*(?:pub(?:\([^)]*\))?\s+)?(?:const\s+)?(?:async\s+)?(?:unsafe\s+)?fn\s+(\w+)", l)
+        if not m:
+            continue
+        depth, started, j = 0, False, i
+        while j < len(lines):
+            c = re.sub(r"//.*", "", lines[j])
+            depth += c.count("{") - c.count("}")
+            if "{" in c:
+                started = True
+            if started and depth <= 0:
+                break
+            if not started and c.strip().endswith(";"):
+                break
+            j += 1
+        out.append((m.group(1), i + 1, j + 1))
+    return out
+
+
+def focus_ranges(p):
+    """{file: [(a, b, fn)]} in the CURRENT tree for the functions the property's anchors point at."""
+    import subprocess
+    wanted = {}
+    lastfile = None
+    for mech in p["anchors"].get("mechanism", []):
+        for part in re.split(r"[;,]", mech["where"]):
+            part = part.strip()
+            m = re.match(r"([\w/.\-]+\.rs)(?::(\d+)(?:-(\d+))?)?$", part)
+            if m:
+                f = m.group(1)
+                if "/" not in f:
+                    cands = [x for x in p["anchors"]["files"] if x.endswith("/" + f)]
+                    f = cands[0] if cands else f
+                lastfile = f
+                a = int(m.group(2)) if m.group(2) else None
+                b = int(m.group(3)) if m.group(3) else a
+            else:
+                m = re.match(r"(\d+)(?:-(\d+))?$", part)
+                if not m or lastfile is None:
+                    continue
+                f = lastfile
+                a = int(m.group(1)); b = int(m.group(2)) if m.group(2) else a
+            try:
+                old = subprocess.run(["git", "-C", REPO, "show", "%s:%s" % (ORIG, f)], capture_output=True, text=True).stdout
+            except Exception:
+                continue
+            for name, x, y in fn_extents(old):
+                if a is None or (x <= b and a <= y):
+                    wanted.setdefault(f, set()).add(name)
+    res = {}
+    for f, names in wanted.items():
+        path = os.path.join(REPO, f)
+        if not os.path.exists(path):
+            continue
+        for name, x, y in fn_extents(open(path).read()):
+            if name in names:
+                res.setdefault(f, []).append((x, y, name))
+    return res
+
+
 def cmd_gen(argv):
     pid = argv[0]
     files = None
     mx = 10 ** 9
     seed = 1
     ops = None
+    focus = False
     i = 1
     while i < len(argv):
         if argv[i] == "--files":
@@ -168,17 +236,25 @@ def cmd_gen(argv):
             seed = int(argv[i + 1]); i += 2
         elif argv[i] == "--ops":
             ops = set(argv[i + 1].split(",")); i += 2
+        elif argv[i] == "--focus":
+            focus = True; i += 1
         else:
             i += 1
     P = props()
     if files is None:
         files = P[pid]["anchors"]["files"]
+    fr = focus_ranges(P[pid]) if focus else None
+    if focus:
+        files = [f for f in files if f in fr]
+        print("focus: " + "; ".join("%s: %s" % (f, ",".join(sorted(set(n for _, _, n in v)))) for f, v in fr.items()), file=sys.stderr)
     muts = []
     for f in files:
         path = os.path.join(REPO, f)
         if not os.path.exists(path):
             continue
         for ln, raw in code_lines(path):
+            if fr is not None and not any(a <= ln <= b for a, b, _ in fr[f]):
+                continue
             seen = set()
             for op, new in mutate_line(raw):
                 if new == raw or new in seen:
@@ -240,7 +316,7 @@ class Worker(threading.Thread):
             open(path, "w").write("\n".join(lines))
             res = {"id": m["id"], "file": m["file"], "line": m["line"], "op": m["op"], "before": m["before"].strip(),
                    "after": m["after"].strip(), "checks": {}}
-            cks = self.checks if self.checks else checks_for_file(m["file"], P)
+            cks = [m["prop"]] if self.checks == ["own"] else self.checks if self.checks else checks_for_file(m["file"], P)
             t0 = time.time()
             for c in cks:
                 rc, out = self.ns("cd /verif && ./check %s 2>&1 | grep -E '^(OK|VIOLATION|DETAIL|KNOWN)' | cut -c1-400" % c, 1500)
